@@ -234,6 +234,13 @@ def jobs(tier):
     js += [(unit_o2e, ("union", n)) for n in sorted(L0["unions"])]
     js += [(unit_o2e, ("area", k)) for k in D.all_area_keys()]
     js += [(unit_o2e, ("frame", "Command")), (unit_o2e, ("frame", "Response"))]
+    # events -> object: trie insertion by the step rule, conversion one level per concrete type
+    js += [(unit_e2d_steps, ()), (unit_to_obj_dispatch, ())]
+    js += [(unit_d2o, ("struct", n)) for n in sorted(L0["structs"])]
+    js += [(unit_d2o, ("tpm2b", n)) for n in sorted(L0["tpm2b"])]
+    js += [(unit_d2o, ("union", n)) for n in sorted(L0["unions"])]
+    js += [(unit_d2o, ("area", k)) for k in D.all_area_keys()]
+    js += [(unit_d2o, ("frame", "Command")), (unit_d2o, ("frame", "Response"))]
     # OBJ: the decoder's object is T(**results) — outcome/object obligations of the walker units
     m = ("strict",)
     js += D.g_structs(m) + D.g_arrays(m) + D.g_frames(m)
@@ -254,6 +261,235 @@ def run(tier, seed, only=None):
         return {"reproduced": True, "detail": obd.get("detail")} if obd.get("backend") in ("evaluation", "structural") and obd["name"].startswith("C11/") else {"reproduced": None}
 
     return run_property("C11", tier, seed, jobs(tier), keep,
-                        "proved: OBJ (every walker returns T(**callee results), all instantiations) and O2E (real obj_to_events per concrete type with opaque/absent sub-objects yields exactly the decode trace at that level: parent, empty-field markers, list parents, sub-segments; invisible optional fields skipped); bounded: events -> object reconstruction on generated inputs against the decoder's object",
-                        only, replayer, min_obligations=2000, level="other",
-                        extra_assumptions=["events -> object (_events_to_dict / _dict_to_obj) has no inductive invariant here: it is checked on generated inputs only (lists <= 3 elements), labelled bounded and never counted as proved"])
+                        "OBJ (every walker returns T(**callee results)), O2E[T] (real obj_to_events per concrete type = decode trace at that level), E2D (trie insertion of _events_to_dict by the step rule on both loops), D2O[T] (real _dict_to_obj per concrete type converts every entry with its declared type), _to_obj/_list_to_obj dispatch; bounded cross-check: events -> object -> events -> bytes on generated inputs",
+                        only, replayer, min_obligations=2000, level="proof",
+                        extra_assumptions=["composition of the one-level obligations (E2D steps, D2O[T], O2E[T], OBJ) into the whole-object statement is a meta-level induction over the acyclic layout; the end-to-end run on generated inputs is a bounded cross-check, never counted as proved"])
+
+
+# ---------------------------------------------------------------------------------------------
+# events -> object by contracts: E2D (trie insertion, step rule on both loops) and D2O[T] (one level per concrete type)
+
+
+def ref_insert(node, name, index, value):
+    """reference semantics of one path step (setdefault: an existing entry wins); returns the entry reached"""
+    if index is None:
+        if name not in node:
+            node[name] = value
+        return node[name]
+    lst = node.setdefault(name, [])
+    if index == len(lst):
+        lst.append(None)
+    if lst[index] is None:
+        lst[index] = value
+    return lst[index]
+
+
+def unit_e2d_steps():
+    """_events_to_dict: one iteration of the inner loop (one path node) from an arbitrary trie node, for every shape of step:
+    plain / indexed node x entry absent / present (x position in the list: next free slot / existing slot) x inner / leaf node
+    x leaf kinds (structure -> {}, list parent -> [], primitive -> the value); and the outer loop: every event starts at the root"""
+    from pyvc.explore import Ctx
+    from pyvc.interp import PathEnd
+    from pyvc.loops import OneStepLoop
+    import copy
+
+    O = mod("tpmstream.common.object")
+    A = __import__("checks.c14", fromlist=["alphabet"]).alphabet()
+    ME, PN, Path = A["MarshalEvent"], A["PathNode"], A["Path"]
+    u = UnitResult("C11/E2D")
+    u.functions = ["tpmstream.common.object:_events_to_dict"]
+
+    def ob(name, ok, detail=""):
+        u.obligations.append({"name": f"C11/E2D/{name}", "kind": "step", "site": "object.py:_events_to_dict", "status": "proved" if ok else "refuted", "backend": "evaluation", "seconds": 0, "model": None, "detail": detail})
+
+    V = A["UINT16"](9)
+    leafkinds = {"structure": (A["Command"], ..., dict), "list-parent": (list[A["BYTE"]], ..., list), "primitive": (A["UINT16"], V, None)}
+    for inner in (True, False):
+        for indexed in (False, True):
+            for present in (False, True):
+                for lk, (T, val, cont) in leafkinds.items():
+                    if inner and lk != "structure":
+                        continue
+                    # the event: a path of three nodes; the step under test is node number `i`
+                    i = 1 if inner else 2
+                    idx = 1 if indexed else None
+                    nodes = [PN(""), PN("a"), PN("b")]
+                    nodes[i] = PN(nodes[i].name, index=idx) if indexed else nodes[i]
+                    ev = ME(Path(nodes), T, val)
+                    existing = {"old": 1} if not indexed or True else None
+                    node = {"other": 5}
+                    if indexed:
+                        node[nodes[i].name] = [{"first": 0}] + ([existing] if present else [])
+                    elif present:
+                        node[nodes[i].name] = existing
+                    before = copy.deepcopy(node)
+                    ctx = Ctx()
+                    I = Interp(ctx, loop_specs={("_events_to_dict", 1): OneStepLoop({"event": ev, "node": node, "i": i, "next_node": nodes[i]}, kind="for")}, force=[O._events_to_dict])
+                    g = I.call(O._events_to_dict, ([ev],), {})
+                    try:
+                        run_sync(g)
+                        out = "returned"
+                    except PathEnd:
+                        out = "next"
+                    except PyExc as e:
+                        out = f"raise {e.exc!r}"
+                    loc = ctx.ghost.get("step", {}).get("locals", {})
+                    if inner:
+                        newval = {}
+                    else:
+                        newval = [] if lk == "list-parent" else ({} if lk == "structure" else V)
+                    exp_node = copy.deepcopy(before)
+                    reached = ref_insert(exp_node, nodes[i].name, idx, newval)
+                    got = loc.get("node")
+                    ok = out == "next" and node == exp_node and (got == reached) and (type(got) is type(reached))
+                    ob(f"step/{'inner' if inner else 'leaf'}/{'indexed' if indexed else 'plain'}/{'present' if present else 'absent'}/{lk}", ok, f"{out}: trie {node} expected {exp_node}; reached {got!r} expected {reached!r}")
+    # outer loop: the walk of every event starts at the root and the root type is the first event's type
+    evs = [ME(Path([PN("")]), A["Command"], ...), ME(Path([PN(""), PN("x")]), A["UINT16"], V), ME(Path([PN(""), PN("l")]), list[A["BYTE"]], ...), ME(Path([PN(""), PN("l", index=0)]), A["BYTE"], A["BYTE"](1)), ME(Path([PN(""), PN("l", index=1)]), A["BYTE"], A["BYTE"](2))]
+    root, rt = O._events_to_dict(iter(evs))
+    ob("run/small-stream", rt is A["Command"] and root == {"": {"x": V, "l": [A["BYTE"](1), A["BYTE"](2)]}}, repr(root)[:200])
+    return u
+
+
+def unit_d2o(kind, key):
+    """_dict_to_obj / _to_obj / _list_to_obj at one level for a concrete type: every entry is converted with exactly the
+    declared field type (Any resolved by the command code; encrypted first parameter detected) and the object is T(**converted)"""
+    from pyvc.explore import Ctx
+
+    O = mod("tpmstream.common.object")
+    L0 = layout()
+    reg, areas = W.registry()
+    u = UnitResult(f"C11/D2O/{key}")
+    u.functions = ["tpmstream.common.object:_dict_to_obj", "tpmstream.common.object:_to_obj", "tpmstream.common.object:_list_to_obj"]
+
+    def ob(name, ok, detail=""):
+        u.obligations.append({"name": f"C11/D2O/{key}/{name}", "kind": "post", "site": "object.py:_dict_to_obj", "status": "proved" if ok else "refuted", "backend": "evaluation", "seconds": 0, "model": None, "detail": detail})
+
+    variants = [("plain", None)]
+    cc_val = None
+    if kind == "area":
+        _, table, ccn = key.split(":")
+        T = areas[(table, ccn)]
+        ent = L0["commands"][ccn][table]
+        if f"{table}:{ccn}" in L0["encrypted"]:
+            variants.append(("encrypted", L0["encrypted"][f"{table}:{ccn}"]))
+    elif kind == "frame":
+        T = reg[key]
+        ent = L0["frames"][key]
+    elif kind == "union":
+        T = reg[key]
+        ent = {"fields": L0["unions"][key]["members"]}
+    else:
+        T = reg[key]
+        ent = L0[{"struct": "structs", "tpm2b": "tpm2b"}[kind]][key]
+    for vname, enc_ent in variants:
+        e = enc_ent or ent
+        fields = e["fields"]
+        for ccn2 in (["GetRandom", "Create", "FirmwareRead"] if kind == "frame" else [None]):
+            ctx = Ctx()
+            calls = []
+            real_to_obj = O._to_obj
+
+            def to_obj_stub(I, args, kwargs):
+                calls.append((args[0], args[1]))
+                return ("CONVERTED", args[1] if not isinstance(args[1], (dict, list)) else id(args[1]))
+                yield
+
+            d = {}
+            vals = {}
+            for i, f in enumerate(fields):
+                if enc_ent is not None and i == 0:
+                    v = {"size": object(), "encryptedParam": object()}  # what the events of an encrypted first parameter rebuild to
+                elif f["type"] == "None":
+                    continue
+                else:
+                    v = object()
+                vals[f["name"]] = v
+                d[f["name"]] = v
+            cc = W.cc_member(ccn2) if ccn2 else None
+            if kind == "frame" and key == "Command":
+                d["commandCode"] = cc
+                vals["commandCode"] = cc
+            if kind == "union":
+                # a union dict holds exactly one member
+                name0 = next(iter(d), None)
+                d = {name0: d[name0]} if name0 else {}
+            I = Interp(ctx, stubs={real_to_obj: to_obj_stub}, force=[O._dict_to_obj])
+            try:
+                obj = run_sync(I.call(O._dict_to_obj, (T, d), {"command_code": cc if key == "Response" else None}))
+            except PyExc as ex:
+                ob(f"{vname}{'/' + ccn2 if ccn2 else ''}/no-internal-error", False, repr(ex.exc)[:200])
+                continue
+            exp_types = {}
+            for f in fields:
+                if f["name"] not in d:
+                    continue
+                if f["type"] == "Any":
+                    table = {("Command", "handles"): "cmd_handles", ("Command", "parameters"): "cmd_params", ("Response", "handles"): "rsp_handles", ("Response", "parameters"): "rsp_params"}[(key, f["name"])]
+                    exp_types[f["name"]] = areas[(table, ccn2)]
+                else:
+                    exp_types[f["name"]] = f["type"]
+            got = {}
+            for (t, v) in calls:
+                nm = next((n for n, vv in d.items() if vv is v), None)
+                got[nm] = t
+            probs = []
+            for nm, want in exp_types.items():
+                if nm not in got:
+                    probs.append(f"{nm}: not converted")
+                elif not W.type_matches(got[nm], want):
+                    probs.append(f"{nm}: converted as {W.typeref(got[nm])}, declared {want if isinstance(want, str) else want.__name__}")
+            ob(f"{vname}{'/' + ccn2 if ccn2 else ''}/every-entry-converted-with-its-declared-type", not probs and len(calls) == len(d), "; ".join(probs[:3]))
+            shown = T
+            if enc_ent is not None:
+                shown = T.encrypted()
+            okobj = type(obj) is shown and all(getattr(obj, nm, None) == ("CONVERTED", v if not isinstance(v, (dict, list)) else id(v)) for nm, v in d.items())
+            ob(f"{vname}{'/' + ccn2 if ccn2 else ''}/object-is-the-type-filled-with-the-converted-entries", okobj, f"{type(obj).__name__}")
+            if key == "Response":
+                ob(f"{vname}/{ccn2}/response-remembers-its-command-code", getattr(obj, "_command_code", None) is cc)
+    return u
+
+
+def unit_to_obj_dispatch():
+    """_to_obj and _list_to_obj: dict -> _dict_to_obj (an empty-field marker of a type with fields -> None), list -> element-wise with the element type, leaf unchanged"""
+    from pyvc.explore import Ctx
+    from tpmstream.spec.structures.base_types import UINT16, BYTE
+    from tpmstream.spec.structures.structures import TPMS_PCR_SELECTION
+    from tpmstream.spec.commands.commands_handles import TPMS_COMMAND_HANDLES_GET_RANDOM
+
+    O = mod("tpmstream.common.object")
+    u = UnitResult("C11/D2O/dispatch")
+    u.functions = ["tpmstream.common.object:_to_obj", "tpmstream.common.object:_list_to_obj", "tpmstream.common.object:events_to_obj"]
+
+    def ob(name, ok, detail=""):
+        u.obligations.append({"name": f"C11/D2O/dispatch/{name}", "kind": "post", "site": "object.py:_to_obj", "status": "proved" if ok else "refuted", "backend": "evaluation", "seconds": 0, "model": None, "detail": detail})
+
+    def run(fn, args, kwargs, stubs, force):
+        ctx = Ctx()
+        I = Interp(ctx, stubs=stubs, force=force)
+        return run_sync(I.call(fn, args, kwargs))
+
+    calls = []
+    def d2o_stub(I, args, kwargs):
+        calls.append((args, dict(kwargs)))
+        return "OBJ"
+        yield
+    CC = object()
+    d = {"hash": 1}
+    r = run(O._to_obj, (TPMS_PCR_SELECTION, d), {"command_code": CC}, {O._dict_to_obj: d2o_stub}, [O._to_obj])
+    ob("dict-goes-to-the-structure-converter-with-type-and-command-code", r == "OBJ" and len(calls) == 1 and calls[0][0][0] is TPMS_PCR_SELECTION and calls[0][0][1] is d and calls[0][1].get("command_code") is CC, str(calls)[:200])
+    calls.clear()
+    r = run(O._to_obj, (TPMS_PCR_SELECTION, {}), {}, {O._dict_to_obj: d2o_stub}, [O._to_obj])
+    ob("empty-field-marker-of-a-type-with-fields-is-absent", r is None and not calls, repr(r))
+    r = run(O._to_obj, (TPMS_COMMAND_HANDLES_GET_RANDOM, {}), {}, {O._dict_to_obj: d2o_stub}, [O._to_obj])
+    ob("a-type-without-fields-is-still-an-object", r == "OBJ", repr(r))
+    v = UINT16(5)
+    ob("leaf-value-is-kept", run(O._to_obj, (UINT16, v), {}, {}, [O._to_obj]) is v)
+    elems = []
+    def to_obj_stub(I, args, kwargs):
+        elems.append(args)
+        return ("E", args[1])
+        yield
+    lst = [object(), object(), object()]
+    r = run(O._list_to_obj, (list[BYTE], lst), {}, {O._to_obj: to_obj_stub}, [O._list_to_obj])
+    ob("list-is-converted-element-wise-with-the-element-type-in-order", r == [("E", x) for x in lst] and all(a[0] is BYTE for a in elems), repr(r)[:200])
+    return u
